@@ -137,9 +137,10 @@ def pose_rotation(rng, pose, ppos):
 
 def negative_diagonal(cf):
     """a DIAGONAL cell matrix with a negative entry (an orthorhombic cell turned by 180 degrees about an axis).
-    Outside the supported domain: `cell_is_orthorhombic()` is true for it and the box test `x < D + cell[k][k]` of the
-    orthorhombic branch then selects nothing — the search silently reports no match at all (observed on the
-    unchanged tree; recorded in the final report, not generated)."""
+    `cell_is_orthorhombic()` is true for it and the box test `x < D + cell[k][k]` of the orthorhombic branch then
+    selects nothing — the search silently reports no match at all.  This is the known finding
+    C02-negative-diagonal-orthorhombic-cell: such cells are generated ONLY by the dedicated stream (cell kinds
+    "ortho-1"/"ortho-2") whose failures carry the finding's tag, never by the general streams."""
     cf = np.asarray(cf, dtype=float)
     return bool((cf == np.diag(np.diag(cf))).all() and (np.diag(cf) <= 0).any())
 
@@ -148,6 +149,16 @@ def _cell(rng, kind, d, atol, tight):
     """cell rows (floats); every perpendicular width exceeds d + 2 atol (by >= 1 A, or only by 3..30 % if tight)"""
     D = d + 2 * atol
     for _ in range(200):
+        if kind in ("ortho-1", "ortho-2"):
+            # KNOWN FINDING stream (C02-negative-diagonal-orthorhombic-cell): an orthorhombic cell given with one or
+            # two negative diagonal entries (two = the cell turned by 180 degrees about an axis)
+            cell = fl.make_cell(rng, "ortho", max(7.0, 2.2 * d + 3))
+            for ax in rng.sample(range(3), 1 if kind == "ortho-1" else 2):
+                cell[ax][ax] = -cell[ax][ax]
+            cf = np.array([[float(v) for v in row] for row in cell])
+            if min(fl.perp_widths(cf)) > D + 1.0:
+                return cf
+            continue
         cell = fl.make_cell(rng, kind, max(7.0, 2.2 * d + 3))
         cf = np.array([[float(v) for v in row] for row in cell])
         if negative_diagonal(cf):
@@ -240,7 +251,7 @@ def planted(rng, pname, cell_kind, copies, atol=0.05, ndecoy=0, perturb_div=8.0,
         if not ok:
             continue
         for _ in range(mirror_copies):
-            if pname not in CHIRAL and len(ppos) >= 3:
+            if pname.split("@")[0] not in CHIRAL and len(ppos) >= 3:
                 g = place(fl.mirror(ppos), pel, "random", None, True)
                 if g is not None:
                     plant.append(tuple(sorted(g)))
@@ -253,7 +264,7 @@ def planted(rng, pname, cell_kind, copies, atol=0.05, ndecoy=0, perturb_div=8.0,
                 else:
                     g = place(fl.mirror(ppos), pel, "random", None, True)
                     if g is not None:
-                        if pname in CHIRAL:
+                        if pname.split("@")[0] in CHIRAL:
                             kinds.append("decoy:mirror")
                         else:                      # genuine occurrence
                             plant.append(tuple(sorted(g)))
@@ -340,3 +351,116 @@ def mk_pattern(case, pos=None):
 
 def keys_of(idx_tuples):
     return sorted(tuple(sorted(int(i) for i in t)) for t in idx_tuples)
+
+
+def negdiag_case(rng, atol=0.05):
+    """a structure in a diagonal cell with one or two negative diagonal entries, with planted copies (known finding)"""
+    pname = rng.choice(list(fl.PATTERNS))
+    kind = rng.choice(["ortho-1", "ortho-2"])
+    copies = [(rng.choice(POSES), None if rng.random() < 0.5 else [rng.choice(FRACS) for _ in range(3)])
+              for _ in range(rng.randint(1, 2))]
+    return planted(rng, pname, kind, copies, atol=atol, ndecoy=rng.randint(0, 1))
+
+
+def two_image_case(rng, atol=0.05):
+    """KNOWN FINDING stream (C03-supercell-two-images-one-group): a narrow cell — every perpendicular width exceeds
+    D = diameter + 2 atol, the width along one cell vector L is below 2 D — with a two-atom pattern A-B placed so that
+    B and its periodic image B + L are BOTH at the pattern distance from A (A on the perpendicular bisector plane).
+    Returns dict(case fields..., axis = index of L, planted=[(0, 1)]) or None."""
+    pname = rng.choice(["pair", "pair_same", "pair@y", "pair@z"])
+    pat = fl.pattern_json(pname)
+    pel = pat["elems"]
+    pf = [[float(x) for x in p] for p in pat["pos"]]
+    d = fl.diam(pat["pos"])
+    D = d + 2 * atol
+    ax = rng.randrange(3)                       # L = cell vector number ax
+    perp = rng.choice([k for k in range(3) if k != ax])
+    for _ in range(60):
+        lens = [Fraction(rng.randint(int(D * 16) + 2, int(2.6 * D * 16)), 16) for _ in range(3)]
+        lens[ax] = Fraction(rng.randint(int(D * 16) + 2, int(min(2 * D, 2 * d) * 16) - 2), 16)
+        ell = float(lens[ax])
+        if not (D * 1.02 < ell < 2 * d * 0.97):
+            continue
+        cell = [[Fraction(0)] * 3 for _ in range(3)]
+        for k in range(3):
+            cell[k][k] = lens[k]
+        if rng.random() < 0.4:                  # a little tilt of another cell vector (triclinic variant)
+            other = rng.choice([k for k in range(3) if k != ax])
+            cell[other][ax] = Fraction(rng.randint(-3, 3), 16)
+        cf = np.array([[float(v) for v in row] for row in cell])
+        if min(fl.perp_widths(cf)) <= D * 1.02 or negative_diagonal(cf):
+            continue
+        cinv = np.linalg.inv(cf)
+        h = math.sqrt(d * d - ell * ell / 4)
+        u = np.zeros(3)
+        u[perp] = 1.0
+        Lv = cf[ax]
+        u = u - Lv * (u.dot(Lv) / Lv.dot(Lv))
+        u /= np.linalg.norm(u)
+        B = np.array([rng.random() for _ in range(3)]).dot(cf)
+        A = B + Lv / 2 + h * u + np.array([rng.uniform(-1, 1) for _ in range(3)]) * (atol / 40)
+        pos = [wrap(A, cf, cinv), wrap(B, cf, cinv)]
+        elems = [pel[0], pel[1]]
+        ins, amb = brute_occurrences(elems, pos, cf, pel, pf, atol)
+        if amb or ins != {(0, 1)}:
+            continue
+        # both images really fit
+        mult = np.array(list(itertools.product(range(-2, 3), repeat=3)), dtype=float)
+        dist = np.linalg.norm(pos[1] + mult @ cf - pos[0], axis=1)
+        if int((np.abs(dist - d) <= atol / 4).sum()) != 2 or int((np.abs(dist - d) <= 2 * atol).sum()) != 2:
+            continue                                # exactly two images fit, every other image is clearly off
+        return {"elems": elems, "pos": [[float(x) for x in v] for v in pos], "cell": cf.tolist(),
+                "pattern": {"elems": list(pel), "pos": pf, "name": pname}, "planted": [(0, 1)], "axis": ax,
+                "info": {"cell": "narrow", "pattern": pname, "copies": 1, "kinds": ["two-images-one-group"], "tight": True,
+                         "attempts": 1}}
+    return None
+
+
+def replicate_indep(elems, pos, cell, dims):
+    """the a x b x c supercell built here (not by the code under test): atom i of image m has index m*N + i"""
+    pos = np.asarray(pos, dtype=float)
+    cell = np.asarray(cell, dtype=float)
+    out_e, out_p = [], []
+    for m in itertools.product(range(dims[0]), range(dims[1]), range(dims[2])):
+        out_e += list(elems)
+        out_p += (pos + np.array(m, dtype=float) @ cell).tolist()
+    return out_e, out_p, (cell * np.array(dims, dtype=float).reshape(3, 1)).tolist()
+
+
+# ------------------------------------------------------------------ order-insensitive comparison of model and code
+
+def _canon_view(near, groups, matches):
+    gs = sorted(sorted([[int(x) for x in t], i in set(g_["good"])] for i, t in enumerate(g_["tuples"])) for g_ in groups)
+    ms = None if matches is None else sorted(matches, key=lambda mm: [int(x) for x in mm["idx"]])
+    return {"near": near, "groups": gs, "matches": ms}
+
+
+def canonical_tie(lean, op, res, m):
+    """The ORDER in which candidate tuples are enumerated (it follows a lexicographic sort of float coordinates; two
+    image atoms whose x coordinates coincide exactly in the model can differ by one ulp in the code, e.g. exact
+    axis-aligned copies in a rotated cell) is not constrained by any property, but the line protocol indexes the
+    rotation oracle by (group number, tuple number).  When the plain comparison fails, the oracle table is re-keyed by
+    TUPLE to the model's own enumeration order, the model is run again, and the two sides are compared as sets:
+    near list, {group: {tuple: passes the re-check}}, reported matches (the model is told to pick the tuple the code
+    picked whenever the model also accepts it).  Returns (canonical impl view, canonical model view)."""
+    from . import core
+    hook = res["hook"]
+    quat_of = {}
+    for g_ in hook.groups:
+        for t, qq in zip(g_["tuples"], g_["quats"]):
+            quat_of[tuple(int(x) for x in t)] = [core.q(x) for x in qq]
+    chosen = set(tuple(int(x) for x in t) for t in (hook.find["chosen"] if hook.find else []))
+    oracle = [[quat_of.get(tuple(t), ["0", "0", "0", "1"]) for t in g_["tuples"]] for g_ in m.get("groups", [])]
+    op2 = dict(op, oracle=oracle, choose=[0] * len(oracle))
+    m2 = lean.run([op2])[0]
+    choose = []
+    for g_ in m2.get("groups", []):
+        pick = 0
+        for k, gi in enumerate(g_["good"]):
+            if tuple(g_["tuples"][gi]) in chosen:
+                pick = k
+        choose.append(pick)
+    m3 = lean.run([dict(op2, choose=choose)])[0]
+    iv = fl.impl_view(res)
+    return (_canon_view(iv["near"], iv["groups"], iv["matches"]),
+            _canon_view(m3.get("near"), m3.get("groups", []), m3.get("matches")))
